@@ -70,7 +70,7 @@ def run(prog, rep, tier):
     stores = S.select("store", qname=f.qname)
     zeros = ("ext", "numpy.zeros", (("self", "p"),), ())
     if len(stores) != 1:
-        rep.bad("WRITESET.coefs", fwhere(f), "coefficients must be written exactly once (at S); found %d stores" % len(stores))
+        rep.bad_form("WRITESET.coefs", fwhere(f), "coefficients must be written exactly once (at S); found %d stores" % len(stores))
     else:
         st = stores[0]
         MUs = ("self", "mean")
